@@ -273,3 +273,29 @@ m("C15", "folder-file-before-extensions", "src/rules/require/path_iterator.rs",
   "                3 => self.return_next(self.path.join(self.module_folder_name)),",
   "                3 => self.return_next(self.path.join(self.module_folder_name).with_extension(\"lua\")),",
   "C15.resolve|path(init)|src/main.lua|./m")
+
+# ---- C13 : string literals ---------------------------------------------------------------------------
+m("C13", "escape-not-padded-before-digit", "src/generator/utils.rs",
+  "if next_character.filter(|c: &u8| c.is_ascii_digit()).is_some() {", "if next_character.filter(|c: &u8| *c == b'0').is_some() {",
+  "C13.strings|DenseLuaGenerator|roundtrip")
+m("C13", "quote-inside-not-escaped", "src/generator/utils.rs",
+  "            if character == quote_symbol {\n                quoted.push('\\\\');", "            if false && character == quote_symbol {\n                quoted.push('\\\\');",
+  "C13.strings|")
+m("C13", "long-bracket-level-off-by-one", "src/generator/utils.rs",
+  "let mut i: usize = value.ends_with(b\"]\").into();", "let mut i: usize = 0;",
+  "C13.strings|DenseLuaGenerator|roundtrip")
+m("C13", "long-bracket-leading-newline-lost", "src/generator/utils.rs",
+  "let needs_extra_new_line = if value.starts_with(b\"\\n\") { \"\\n\" } else { \"\" };", "let needs_extra_new_line = \"\";",
+  "C13.strings|DenseLuaGenerator|roundtrip")
+m("C13", "long-bracket-allows-cr", "src/generator/utils.rs",
+  "!(character.is_ascii_graphic() || *character == b' ' || *character == b'\\n')", "!(character.is_ascii_graphic() || character.is_ascii_whitespace())",
+  "C13.strings|DenseLuaGenerator|roundtrip")
+m("C13", "segment-brace-not-escaped", "src/generator/utils.rs",
+  "            b'`' | b'{' => {\n                result.push('\\\\');", "            b'`' => {\n                result.push('\\\\');",
+  "C13.segments|")
+m("C13", "backslash-not-escaped", "src/generator/utils.rs",
+  "!(character.is_ascii_graphic() || character == b' ') || character == b'\\\\'", "!(character.is_ascii_graphic() || character == b' ')",
+  "C13.strings|")
+m("C15", "alias-tie-in-hash-order", "src/rules/require/path_require_mode.rs",
+  "                    std::cmp::Reverse(alias_name.to_string()),\n", "                    0,\n",
+  "C15.convert|path->path|src/main.lua|pkg/m")
